@@ -278,6 +278,9 @@ impl<'a, T> Future for RecvFut<'a, T> {
 impl<T> Drop for Receiver<T> {
     fn drop(&mut self) {
         self.c().rx_closed.set(true);
+        // the receiver's waker goes away with it (conformance: the real channel
+        // does not wake anybody when the last sender drops after the receiver)
+        self.c().rx_waiting.set(false);
         self.c().buf().clear();
         self.c().wake_txs();
     }
